@@ -49,7 +49,12 @@ func init() {
 func runC01(c *core.Ctx) {
 	_, nLarge, nPres := c01Counts(c.Tier)
 	var m *sgen.Model
-	if c.Index < nLarge {
+	if c.Thorough() && c.Index == nLarge-1 {
+		// 80 trips x 2500 stop times = 200 000 rows
+		m = sgen.Gen(c.R, sgen.Size{Agencies: 1, Routes: 3, Stops: 60, Transfers: 3, Calendars: 2, CalDates: 3, Shapes: 2, ShapePtsPer: 100, Trips: 80, Freqs: 2, StopTimesPer: 2500, Exact: true})
+		c.Feature("very-large-model-200k-stop-times")
+		nPres = 1
+	} else if c.Index < nLarge {
 		sz := largeSizes[c.Index%len(largeSizes)]
 		m = sgen.Gen(c.R, sz)
 		c.Feature("large-model")
